@@ -193,11 +193,16 @@ func c20(c *Ctx) {
 	// decoder
 	decPrefix := ssa.Value(dec.Params[0])
 	var strip *ssa.Call
-	for _, cc := range callsNamed(dec, "strings.CutPrefix", "strings.TrimPrefix") {
-		if core.Strip(cc.Call.Args[1]) == decPrefix {
-			strip = cc
-		}
+	var stripSite core.DeepSite
+	for _, site := range core.SplitCalls(dec, nil, "strings.CutPrefix", "strings.TrimPrefix") {
+		cc := site.Instr.(*ssa.Call)
+		site.In(func() {
+			if core.Strip(cc.Call.Args[1]) == decPrefix {
+				strip, stripSite = cc, site
+			}
+		})
 	}
+	_ = stripSite
 	var rest ssa.Value
 	if strip != nil {
 		rest = ssa.Value(strip)
